@@ -60,6 +60,10 @@ class RepeatingEventBase(EventBase):
                           representation, **kwargs) -> list[EventMessageBox]:
         if not self.inband:
             return []
+        if self.interval < 1:
+            # a zero or negative interval would never reach seg_end
+            raise ValueError(
+                f'event interval must be greater than zero: {self.interval}')
         # start and end time of the fragment (representation timebase)
         seg_start = moof.traf.tfdt.base_media_decode_time
         seg_end = seg_start + representation.segments[mod_segment].duration
@@ -91,6 +95,9 @@ class RepeatingEventBase(EventBase):
         presentation_time += event_id * self.interval
         retval = []
         while presentation_time < seg_end:
+            if self.count > 0 and event_id >= self.count:
+                # the schedule has only "count" events (ids 0 .. count-1)
+                break
             if presentation_time < seg_start:
                 event_id += 1
                 presentation_time += self.interval
